@@ -18,3 +18,7 @@ pub mod stubs;
 pub mod queuer;
 pub mod shapes;
 pub mod harnesses;
+pub mod iter;
+pub mod outcome;
+#[cfg(feature = "interruptible")]
+pub mod track;
